@@ -47,6 +47,9 @@ def main():
     os.makedirs(dst, exist_ok=True)
     for f in ('patch.diff', 'demo.c', 'README.txt'):
         if os.path.exists(os.path.join(src, f)): shutil.copy(os.path.join(src, f), dst)
+    if os.path.isdir(src):
+        for f in os.listdir(src):                     # helper headers a demonstration includes
+            if f.endswith('.h'): shutil.copy(os.path.join(src, f), dst)
     head = sh('git -C /repo rev-parse HEAD').stdout.strip()
     if not os.path.isdir(WT):
         sh('git -C /repo worktree add --detach %s HEAD' % WT)
